@@ -9,10 +9,17 @@
   forged input.
 -/
 import Saltpack.Proofs.Calls
+import Saltpack.Gen.Inventory
 import Saltpack.Toy
 
 namespace Saltpack.Props.C12
 open Saltpack Saltpack.Proofs
+
+/-- **Call-site inventory** (regenerated from /repo's source on every run): every
+    place where the library calls `Box`, `Unbox`, `Precompute` or `Sign` on an
+    application key object — the sites the model's call logs account for.  A new
+    site, or one that moves, breaks this obligation before any input is needed. -/
+theorem C12_key_call_sites : Gen.keyCallSites = ["sp.computeMACKeySingle:Box", "sp.decryptStream.tryHiddenReceivers:Precompute", "sp.decryptStream.tryHiddenReceivers:Unbox", "sp.decryptStream.tryVisibleReceivers:Unbox", "sp.derivedEphemeralKeyFromBoxKeys:Box", "sp.encryptStream.init:Box", "sp.encryptStream.init:Precompute", "sp.signAttachedStream.computeSig:Sign", "sp.signDetachedStream.Close:Sign", "sp.signcryptSealStream.signcryptBlock:Sign"] := rfl
 
 /-- **Receivers (encryption).** Whatever header and packets arrive and whatever
     the keyring answers: every box the long-term secret key is asked to open is
